@@ -7,8 +7,12 @@
      accepted by the final schema `config/3/config`  ->  documented shape (DocValid.config_doc)
 
    [config_doc false] / [ft_doc false] are the documented shapes MINUS the constraints listed at
-   the top of DocValid.v, which the unchanged schemas do not enforce; each of those is a
-   `_refuted` theorem below (the documented shape is [.. true]).  The constraints that barectf
+   the top of DocValid.v, which the current schemas still do not enforce (integral floats, null
+   enumeration mappings, names followed by a newline, total >= content size); each of those is a
+   `_refuted` theorem below (the documented shape is [.. true]).  The constraints that used to be
+   refuted and were repaired in /repo (dynamic array shape, static array `length`, member names,
+   unknown trace properties) are now part of the proved shape, and their former witnesses are
+   kernel-evaluated to Invalid (Examples at the end).  The constraints that barectf
    checks in Python after schema validation (power-of-two alignment, duplicate/reserved member
    names, nested structure / dynamic array, ID field widths, default stream uniqueness, unknown
    aliases / clock types, cycles) are not modelled in Coq: they are validated on the real code by
@@ -48,7 +52,8 @@ Print Assumptions C09_field_type_tree_partial.
 
 (* per class: integer (size present, integer-valued, 1..64; alignment >= 1; display base and class
    name enumerations; unknown property rejected), enumeration, real (size 32 or 64), string,
-   static array (element present and a valid field type; length, when present, >= 0), structure *)
+   static array (element and length required, length >= 0), dynamic array (element required,
+   unknown property rejected), structure (member names are identifiers, member objects validated) *)
 Theorem C09_uint_ft : forall j, VK "config/3/field-type#/definitions/uint-ft" j -> int_ft_doc false uint_names j.
 Proof. exact uint_ft_shape. Qed.
 Theorem C09_sint_ft : forall j, VK "config/3/field-type#/definitions/sint-ft" j -> int_ft_doc false sint_names j.
@@ -61,11 +66,20 @@ Theorem C09_real_ft : forall j, VK "config/3/field-type#/definitions/real-ft" j 
 Proof. exact real_ft_shape. Qed.
 Theorem C09_string_ft : forall j, VK "config/3/field-type#/definitions/string-ft" j -> string_ft_doc j.
 Proof. exact string_ft_shape. Qed.
-Theorem C09_static_array_ft_partial :
+Theorem C09_static_array_ft :
   forall j, VK "config/3/field-type#/definitions/static-array-ft" j ->
             static_array_ft_doc false (VK "config/3/field-type#/definitions/ft") j.
 Proof. exact static_array_ft_shape. Qed.
-Theorem C09_struct_ft_partial :
+Theorem C09_dynamic_array_ft :
+  forall j, VK "config/3/field-type#/definitions/dynamic-array-ft" j ->
+            dynamic_array_ft_doc false (VK "config/3/field-type#/definitions/ft") j.
+Proof. exact dynamic_array_ft_shape. Qed.
+Theorem C09_struct_members :
+  forall j, VK "config/3/field-type#/definitions/struct-ft-members" j -> members_doc false (ft_doc false) j.
+Proof. exact struct_ft_members_shape. Qed.
+Theorem C09_trace : forall j, VK "config/3/config#/definitions/trace" j -> trace_doc false j.
+Proof. exact trace_shape. Qed.
+Theorem C09_struct_ft :
   forall j, VK "config/3/field-type#/definitions/struct-ft" j ->
             struct_ft_doc false (VK "config/3/field-type#/definitions/ft") j.
 Proof. exact struct_ft_shape. Qed.
@@ -79,21 +93,16 @@ Theorem C09_trace_type : forall j, VK "config/3/config#/definitions/trace-type" 
 Proof. exact trace_type_shape. Qed.
 Print Assumptions C09_uint_ft.
 Print Assumptions C09_real_ft.
-Print Assumptions C09_static_array_ft_partial.
-Print Assumptions C09_struct_ft_partial.
+Print Assumptions C09_static_array_ft.
+Print Assumptions C09_dynamic_array_ft.
+Print Assumptions C09_struct_members.
+Print Assumptions C09_trace.
+Print Assumptions C09_struct_ft.
 Print Assumptions C09_trace_type.
 
-(* ---- the documentation is NOT enforced by the unchanged schemas: accepted witnesses *)
+(* ---- the documentation is still NOT enforced by the schemas: accepted witnesses *)
 
-(* S14: `length` of a static array is not required *)
-Theorem C09_static_array_length_required_refuted :
-  exists j, accepts3 "config/3/field-type#/definitions/ft" j /\ ~ ft_doc true j.
-Proof. exact (refuted_ft w_S14 w_S14_valid w_S14_not_doc). Qed.
-(* S4: a dynamic array node is not validated (no element field type, unknown property) *)
-Theorem C09_dynamic_array_refuted :
-  exists j, accepts3 "config/3/field-type#/definitions/ft" j /\ ~ ft_doc true j.
-Proof. exact (refuted_ft w_S4 w_S4_valid w_S4_not_doc). Qed.
-(* S18: a float with an integral value passes for an integer *)
+(* S19: a float with an integral value passes for an integer *)
 Theorem C09_integer_property_is_integer_refuted :
   exists j, accepts3 "config/3/field-type#/definitions/ft" j /\ ~ ft_doc true j.
 Proof. exact (refuted_ft w_S18 w_S18_valid w_S18_not_doc). Qed.
@@ -101,29 +110,17 @@ Proof. exact (refuted_ft w_S18 w_S18_valid w_S18_not_doc). Qed.
 Theorem C09_enum_mappings_required_refuted :
   exists j, accepts3 "config/3/field-type#/definitions/ft" j /\ ~ ft_doc true j.
 Proof. exact (refuted_ft w_enum_null w_enum_null_valid w_enum_null_not_doc). Qed.
-(* structure member name that is not an identifier (and then an arbitrary member value) *)
-Theorem C09_member_name_identifier_refuted :
-  exists j, accepts3 "config/3/field-type#/definitions/ft" j /\ ~ ft_doc true j.
-Proof. exact (refuted_ft w_member w_member_valid w_member_not_doc). Qed.
 (* S3: total size field type narrower than the content size field type *)
 Theorem C09_total_size_ge_content_size_refuted :
   exists j, accepts3 "config/3/config#" j /\ ~ doc_total_ge_content j.
 Proof. exact (refuted_cfg doc_total_ge_content w_S3 w_S3_valid w_S3_not_doc). Qed.
-(* unknown property of the trace object *)
-Theorem C09_trace_unknown_property_refuted :
-  exists j, accepts3 "config/3/config#" j /\ ~ config_doc true j.
-Proof. exact (refuted_cfg (config_doc true) w_trace_prop w_trace_prop_valid w_trace_prop_not_doc). Qed.
 (* a name that is an identifier followed by a newline *)
 Theorem C09_name_identifier_refuted :
   exists j, accepts3 "config/3/config#" j /\ ~ config_doc true j.
 Proof. exact (refuted_cfg (config_doc true) w_name_nl w_name_nl_valid w_name_nl_not_doc). Qed.
-Print Assumptions C09_static_array_length_required_refuted.
-Print Assumptions C09_dynamic_array_refuted.
 Print Assumptions C09_integer_property_is_integer_refuted.
 Print Assumptions C09_enum_mappings_required_refuted.
-Print Assumptions C09_member_name_identifier_refuted.
 Print Assumptions C09_total_size_ge_content_size_refuted.
-Print Assumptions C09_trace_unknown_property_refuted.
 Print Assumptions C09_name_identifier_refuted.
 
 (* ---- non-vacuity: a complete configuration that is accepted, one (size 65) that is rejected *)
@@ -131,3 +128,18 @@ Example C09_example_accepted : validate Schemas3.store 200 (SRef "config/3/confi
 Proof. exact good_cfg_valid. Qed.
 Example C09_example_rejected : validate Schemas3.store 200 (SRef "config/3/config#") bad_cfg = Invalid.
 Proof. exact bad_cfg_invalid. Qed.
+
+(* ---- regression: the witnesses of the defects repaired in /repo are now rejected by the
+   regenerated schemas (kernel evaluation) *)
+Example C09_static_array_without_length_rejected :
+  validate Schemas3.store 200 (SRef K_ft) w_S14 = Invalid.
+Proof. exact w_S14_rejected. Qed.
+Example C09_dynamic_array_unknown_property_rejected :
+  validate Schemas3.store 200 (SRef K_ft) w_S4 = Invalid.
+Proof. exact w_S4_rejected. Qed.
+Example C09_member_name_not_identifier_rejected :
+  validate Schemas3.store 200 (SRef K_ft) w_member = Invalid.
+Proof. exact w_member_rejected. Qed.
+Example C09_trace_unknown_property_rejected :
+  validate Schemas3.store 200 (SRef K_config) w_trace_prop = Invalid.
+Proof. exact w_trace_prop_rejected. Qed.
